@@ -32,6 +32,10 @@ def body_loop(sp, pred=None):
     return None
 
 
+def is_symbolic(v):
+    return isinstance(v, (Sym, Op, Lin, Guard, Top))
+
+
 def strip(guards):
     return [g for g in guards if not (isinstance(g, Op) and g.op in ("in-loop", "loop-exit")) and not (isinstance(g, Op) and g.op == "not" and isinstance(g.args[0], Op) and g.args[0].op == "loop-exit")]
 
@@ -254,6 +258,30 @@ def run(rep, tier):
         rep.ob("R3", CN, "minus128-means-no-line", linev is not None, expected="line' = line + delta unless delta == -128 (then unchanged)", derived=show(linev))
         ys = [e for e in ls.effects if e.kind == "yield"]
         if endv and linev:
+            # every continuing path (also the one that skips an empty range) must account for the entry: decided by evaluating the
+            # extracted path conditions, updates and yield on a separating set of (length, delta) values
+            from ..sve import eval_term
+            bad_paths = []
+            for odv in (0, 3):
+                for ldv in (-128, -2, 0, 5):
+                    val = {repr(od): odv, repr(ld): ldv, repr(endv[1]): 10, repr(linev[1]): 100}
+                    try:
+                        post = None
+                        for g_, l_ in lv:
+                            if isinstance(l_, (Fall, Cont)) and all(eval_term(c, val) for c in strip(g_)):
+                                post = (eval_term(l_.env.get(endv[0]), val), eval_term(l_.env.get(linev[0]), val))
+                                break
+                        emitted = [eval_term(y.args[0], val) for y in ys if all(eval_term(c, val) for c in strip(y.guards))]
+                    except Exception as ex:
+                        bad_paths.append("not evaluable: %s" % ex)
+                        break
+                    want_line = 100 if ldv == -128 else 100 + ldv
+                    want_emit = [(10, 10 + odv, None if ldv == -128 else 100 + ldv)] if odv else []
+                    if post != (10 + odv, want_line) or emitted != want_emit:
+                        bad_paths.append("length=%d delta=%d: end,line -> %s (expected %s), yields %s (expected %s)" % (odv, ldv, post, (10 + odv, want_line), emitted, want_emit))
+            rep.ob("R3", CN, "every-entry-accounted", not bad_paths, expected="end += length and line += delta (unless -128) on every path; a range is yielded iff length != 0",
+                   derived=bad_paths[:3] or "8 (length, delta) classes agree",
+                   msg="an entry of the 3.10 line table is not fully applied on some path (zero-length entries carry line deltas larger than 127): %s" % "; ".join(bad_paths[:2]))
             want = (endv[1], add(endv[1], od), Guard(Op("NotEq", ld, -128), add(linev[1], ld), None))
             ok = len(ys) == 1 and repr(ys[0].args[0]) == repr(want)
             rep.ob("R3", CN, "range-triple", ok, expected=show(want), derived=[show(y.args[0]) for y in ys],
@@ -298,6 +326,29 @@ def run(rep, tier):
                 good = len(gs) == 2 and gs[0] == "IsNot(line, None)" and gs[1].startswith("NotEq(line, ")
             rep.ob("R5", fn.qualname, "%s:guard" % label, good,
                    expected="line is not lastline" if none_yielded else "line is not None and line != lastline", derived=gs)
+            # the remembered line: starts as a value no first range can carry, becomes the yielded line
+            lastv = [(n__, h__) for n__, h__ in lastv if n__ in ls.pre]
+            if len(lastv) == 1:
+                n_, hv_ = lastv[0]
+                init = ls.pre.get(n_)
+                if none_yielded:
+                    ok_init = not is_symbolic(init) and init is not None and not (isinstance(init, int) and not isinstance(init, bool))
+                    exp_init = "a sentinel that is neither None nor a line number (3.13 yields a leading no-line range as (0, None))"
+                else:
+                    ok_init = not is_symbolic(init) and not (isinstance(init, int) and not isinstance(init, bool))
+                    exp_init = "None or another non-line sentinel"
+                rep.ob("R5", fn.qualname, "%s:initial-lastline" % label, ok_init, expected=exp_init, derived=show(init),
+                       msg="the first range's line is compared with %s: a code object that begins with %s loses its first line start" % (
+                           show(init), "a no-line range" if none_yielded else "that line"))
+                upd = []
+                for g_, l_ in leaves(ls.out):
+                    if isinstance(l_, (Fall, Cont)) and l_.env is not None:
+                        upd.append(show(l_.env.get(n_)))
+                good_upd = bool(upd) and all(u == "line" or (u.startswith("(") and "? line :" in u and u.rstrip(")").endswith(show(hv_))) or u == show(hv_) for u in upd) and \
+                    any("line" in u for u in upd)
+                rep.ob("R5", fn.qualname, "%s:lastline-follows-yield" % label, good_upd, expected="lastline' = line exactly on the yielding path", derived=upd)
+            else:
+                rep.ob("R5", fn.qualname, "%s:initial-lastline" % label, False, expected="one remembered-line variable", derived=[n for n, _ in lastv])
     colines_finder(f, "3.10-3.12", False)
     m313 = T.table_for_version("3.13")
     f313 = m313.ns.get("findlinestarts") if m313 else None
